@@ -245,8 +245,14 @@ func (x *Exec) callContract(st *State, fr *Frame, in ssa.Instruction, callee *ss
 		for _, c := range b.Ensures {
 			t, err := postB.evalBool(c.E)
 			if err != nil {
+				if spec.Mode != x.spec.Mode || spec.Options["repr"] != x.spec.Options["repr"] {
+					continue // clause written for another integer/array representation: not usable here (fewer assumptions is sound)
+				}
 				x.fail(fmt.Sprintf("postcondition of %s: %v", name, err))
 				continue
+			}
+			if c.Abstract {
+				x.assume("A-DET")
 			}
 			st.Assume(Implies(And(guard...), t))
 		}
